@@ -392,7 +392,13 @@ def _s1():
     except Exception:
         le = None
     R = G.Rectangle     # through the public interface only (where the values are kept is the library's business)
-    re_ = [R.distance_epsilon(), R.area_epsilon()] if R.epsilon_defined() else [-1.0, -1.0]
+    re_ = [-1.0, -1.0]
+    if R.epsilon_defined():
+        re_[0] = R.distance_epsilon()
+        try:
+            re_[1] = R.area_epsilon()
+        except AssertionError:
+            pass    # an interrupted set_epsilon left the distance tolerance set and the area tolerance undefined
     return {"rect_epsilon": re_, "legal_epsilon": le,
             "debug_print": ET.debug_print, "named_variables": len(ET.named_variables), "store": len(PB.memory)}
 
